@@ -5,4 +5,5 @@ func genAll(src, out string) {
 	genWalker(src, out)
 	genHazards(src, out)
 	genLocks(src, out)
+	genLockExits(src, out)
 }
